@@ -421,7 +421,7 @@ PROPS["C07"] = {
     "rule": "[enumerated] all 256 flag combinations x 3 map pairs (QuadInv+Identity, IdentityTime+Identity, user time map {exp, softplus, quadratic-inverse} + user spatial map with per-point unconstrained dimension DIM-1/DIM/DIM+1 "
             "(affine, sphere, identity)) for each of 3 orders x dimensions 1..4 (12 binaries); per configuration generated: N in 1..6, durations/waypoints/boundary state, start time, energy weight 0 or 2^k (scaled), K in {1,2,3,4,5,8,16,64}, "
             "time/waypoint/running cost programs depending on p,v,a,j,s, global time and segment index, decision vector = initial guess perturbed in every slot. Oracle: central differences with Richardson extrapolation of the cost RETURNED by "
-            "evaluate for every coordinate and 3 generated directions. [C07x] non-FD cross-check with the identity maps (generated flags, N, K, weight, costs): the gradient is re-derived from the reference minimiser (R2), the user's cost gradients at the reference states, "
+            "evaluate for every coordinate and 3 generated directions. [C07x] non-FD cross-check for all three map pairs (generated flags, N, K, weight, costs; the maps' own backward rules are applied to the reference gradient): the gradient is re-derived from the reference minimiser (R2), the user's cost gradients at the reference states, "
             "the documented quadrature (incl. the drift and the explicit-time terms) and the reference Jacobian (R4), and compared entry by entry at 1e-7 of the condition-aware scale. "
             "non-trivial = a boundary-derivative or end-point flag set, K >= 2 and a running cost with non-zero explicit-time gradient",
     "exhaustive_note": "flags x map pairs (768 configurations per order and dimension) are enumerated completely on every run",
